@@ -219,6 +219,16 @@ impl<'tcx> Cx<'tcx> {
         let (_, _, bhi) = self.span_line(body.span);
         o.set("line_hi", J::Int(bhi.max(hi) as i128));
 
+        // the generic parameters in the order in which a call site lists its arguments for them
+        if kind != DefKind::Closure {
+            let ids = ty::GenericArgs::identity_for_item(tcx, did);
+            let mut gs = Vec::new();
+            for a in ids.iter() {
+                gs.push(J::s(with_no_trimmed_paths!(a.to_string())));
+            }
+            o.set("generics", J::Arr(gs));
+        }
+
         // impl / trait context (for closures: of the enclosing fn)
         let mut owner = did;
         while tcx.def_kind(owner) == DefKind::Closure {
